@@ -215,6 +215,52 @@ func paramIdx(fn *ssa.Function, path string) int {
 	return 0
 }
 
+// seenOrAddHelper: h, called at site, answers "was this id in the window?" and
+// records the id exactly when it was not: every true verdict follows a
+// successful lookup of id without an Add, every false verdict a failed lookup
+// followed by Add(id).
+func seenOrAddHelper(h *ssa.Function, site *ssa.CallCommon, id string) bool {
+	if h.Signature.Results().Len() != 1 {
+		return false
+	}
+	var get, add *ssa.Call
+	for _, ci := range calls(h) {
+		call, ok := ci.(*ssa.Call)
+		if !ok || len(call.Call.Args) < 2 {
+			continue
+		}
+		n := an.CalleeName(&call.Call)
+		if !strings.Contains(n, "golang-lru") || an.PathOfIn(call.Call.Args[1], site) != id {
+			continue
+		}
+		switch n[strings.LastIndex(n, ".")+1:] {
+		case "Get", "Contains", "Peek":
+			get = call
+		case "Add":
+			add = call
+		}
+	}
+	if get == nil || add == nil {
+		return false
+	}
+	for _, want := range []bool{true, false} {
+		ps, ok := an.ResultPaths(h, 0, want)
+		if !ok || len(ps) == 0 {
+			return false
+		}
+		for _, p := range ps {
+			hit := p.Has(func(g an.Cond) bool {
+				ex, isEx := g.V.(*ssa.Extract)
+				return isEx && ex.Tuple == ssa.Value(get) && ex.Index == 1 && g.True == want
+			})
+			if !hit || p.Path.Contains(add.Block()) == want {
+				return false
+			}
+		}
+	}
+	return true
+}
+
 func runUniqPath(c *core.Ctx) {
 	P := c.P
 	for _, b := range mwBases(P) {
@@ -248,11 +294,32 @@ func runUniqPath(c *core.Ctx) {
 				adds = append(adds, call)
 			}
 		}
+		// the pair "look the id up, record it if it was not there" may live in a private
+		// helper: then the helper's verdict plays the part of the lookup's
+		var helperSite *ssa.Call
 		if get == nil || add == nil {
+			for _, ci := range calls(fn) {
+				hc, isCall := ci.(*ssa.Call)
+				if !isCall {
+					continue
+				}
+				if h := an.StaticCallee(&hc.Call); an.PrivateHelper(h) && seenOrAddHelper(h, &hc.Call, id) {
+					helperSite = hc
+				}
+			}
+		}
+		if (get == nil || add == nil) && helperSite == nil {
 			c.Bad(nil, b.name, "get-then-add", P.Pos(fn.Pos()), "the filter does not both look up and record the event id ("+id+")")
 			continue
 		}
-		found := an.PathOf(get) + "#1"
+		found := ""
+		if helperSite != nil {
+			found = an.PathOf(helperSite)
+			get, add = helperSite, helperSite
+			adds = nil
+		} else {
+			found = an.PathOf(get) + "#1"
+		}
 		var fwdEv, other *ssa.BasicBlock
 		okShape := true
 		for _, r := range classifyClientReturns(P, fn, 2, 0) {
@@ -281,13 +348,13 @@ func runUniqPath(c *core.Ctx) {
 			}
 		}
 		// Add on the not-found edge, before the forward; never on the found edge
-		addOK := false
+		addOK := helperSite != nil // (verified inside the helper)
 		for _, g := range an.Guards(fn, add.Block()) {
 			if an.PathOf(g.V) == found && !g.True {
 				addOK = true
 			}
 		}
-		if other != nil && (add.Block() == other || add.Block().Dominates(other)) {
+		if helperSite == nil && other != nil && (add.Block() == other || add.Block().Dominates(other)) {
 			addOK = false
 		}
 		// no recording of the id outside the not-found edge (an Add before the lookup makes every id "found")
